@@ -25,6 +25,11 @@ struct vec_writer : public ST::format_writer {
     vec_writer &append_char(char ch, size_t count = 1) override { out.append(count, ch); return *this; }
 };
 struct Point { int x, y; };
+struct Nest { int depth; };         // formats itself through a nested ST::format call per level
+// a FILE* owned by the calling thread whose bytes arrive in a private string (any buffering mode works on it, unlike a memstream)
+struct CookieSink { std::string got; };
+// (called from inside libc: it must not throw, so it never allocates - the owner reserves room before the call)
+ssize_t cookie_write(void *c, const char *buf, size_t n) { auto &g = static_cast<CookieSink *>(c)->got; if (g.size() + n > g.capacity()) return 0; g.append(buf, n); return (ssize_t)n; }
 }
 }
 namespace ST {
@@ -34,6 +39,11 @@ inline void format_type(const ST::format_spec &format, ST::format_writer &output
     output.append_char(',');
     ST::format_type(format, output, p.y);
     output.append(")");
+}
+inline void format_type(const ST::format_spec &, ST::format_writer &output, const B::Nest &n) {
+    if (n.depth <= 0) { output.append("."); return; }
+    ST::string inner = ST::format("<{}>", B::Nest{n.depth - 1});
+    output.append(inner.c_str(), inner.size());
 }
 }
 namespace B {
@@ -244,8 +254,19 @@ void do_op2(const Pool &P, Priv &V, const BOp &op, Hash &h) {
         std::basic_ostringstream<char32_t> o32; try { ST::writef(o32, "{}", op.c); h.u64(o32.str().size()); } catch (const std::exception &) { h.str("ios32"); }
         break; }
     case 80: {      // stdio_memstream: ST::printf to the thread's own FILE*
-        char *mem = nullptr; size_t len = 0; FILE *f = open_memstream(&mem, &len);
-        if (f) { ST::printf(f, "{}|{>10}|{x}|{}|{_*12}", s, t, op.c, 3.25, op.b); ST::printf(f, "plain"); std::fclose(f); h.bytes(mem, len); std::free(mem); }
+        // (in every buffering mode a FILE* can be in: a third of the calls each fully buffered, line buffered, unbuffered; every fourth on a memstream)
+        if (op.c % 4 == 3) {
+            char *mem = nullptr; size_t len = 0; FILE *f = open_memstream(&mem, &len);
+            if (f) { ST::printf(f, "{}|{>10}|{x}|{}|{_*12}", s, t, op.c, 3.25, op.b); ST::printf(f, "plain"); std::fclose(f); h.bytes(mem, len); std::free(mem); }
+            break;
+        }
+        CookieSink sink; sink.got.reserve(s.size() + 2 * t.size() + 256); cookie_io_functions_t io = {nullptr, cookie_write, nullptr, nullptr};
+        FILE *f = fopencookie(&sink, "w", io);
+        if (f) {
+            static const int MODES[] = {_IOFBF, _IOLBF, _IONBF};
+            unsigned m = (op.c >> 2) % 3; std::setvbuf(f, nullptr, MODES[m], m == 2 ? 0 : 16 + op.b % 300);
+            ST::printf(f, "{}|{>10}|{x}|{}|{_*12}\n", s, t, op.c, 3.25, op.b); ST::printf(f, "plain"); ST::printf(f, "{>40}|{}", op.a, t); std::fclose(f); hstd(h, sink.got);
+        }
         break; }
     case 81: {      // buffer_overloads
         using namespace ST::literals;
@@ -280,8 +301,11 @@ void do_op2(const Pool &P, Priv &V, const BOp &op, Hash &h) {
         try { hb(h, ST::utf16_to_latin_1(c16, ST::check_validity)); } catch (const ST::unicode_error &e) { h.str(e.what()); }
         try { hb(h, ST::utf8_to_latin_1(raw.c_str(), raw.size(), ST::check_validity)); } catch (const ST::unicode_error &e) { h.str(e.what()); }
         break; }
-    default: {      // 84 wide_buffers: conversions between the wide pool buffers through strings
+    case 84: {      // wide_buffers: conversions between the wide pool buffers through strings
         ST::string a(c16), b(c32), c(cw); h.u8(a == b); h.u8(b == c); hb(h, a.to_utf32()); hb(h, b.to_utf16()); hb(h, c.to_wchar()); hb(h, a.to_latin_1(ST::substitute_invalid));
+        break; }
+    default: {      // 85 nested_formatter: a user-defined formatter that formats re-entrantly, 1-28 levels deep (many format calls of one thread alive at once)
+        try { hs(h, ST::format("{}|{}", Nest{(int)(1 + op.b % 28)}, s)); } catch (const std::exception &e) { h.str(e.what()); }
         break; }
     }
 }
